@@ -151,12 +151,16 @@ def oracle(pre, post, inf, toks):
     return {t[0] for t in trees(0, n) if ok(t, 0)}
 
 
-def wf_streams(maxlen, n_inf, has_pre, has_post):
-    """All well-formed token streams (operand (infix operand)*) up to maxlen tokens."""
+def wf_streams(maxlen, n_inf, n_pre, n_post):
+    """All well-formed token streams (operand (infix operand)*) up to maxlen tokens, with up to
+    two leading prefix and two trailing postfix operators per operand, drawn from the table's
+    prefix / postfix operator kinds."""
     operands = []
-    for npre in range(0, 3 if has_pre else 1):
-        for npost in range(0, 3 if has_post else 1):
-            operands.append(["e0"] * npre + ["a1"] + ["o0"] * npost)
+    for npre in range(0, 3 if n_pre else 1):
+        for pres in itertools.product(range(n_pre), repeat=npre):
+            for npost in range(0, 3 if n_post else 1):
+                for posts in itertools.product(range(n_post), repeat=npost):
+                    operands.append([f"e{p}" for p in pres] + ["a1"] + [f"o{q}" for q in posts])
     out = []
 
     def rec(cur, length):
@@ -231,6 +235,11 @@ def check(tier: str, seed: int):
                                        {0: (p0, a0), 1: (p1, a1)}))
     rng.shuffle(systematic)
     tables += systematic[:ntables] if tier != "thorough" else systematic
+    # tables with two prefix and two postfix operators of different precedences
+    for _ in range(ntables // 3):
+        tables.append(({0: rng.randint(1, 6), 1: rng.randint(1, 6)} if rng.random() < 0.7 else {0: rng.randint(1, 6)},
+                       {0: rng.randint(1, 7), 1: rng.randint(1, 7)},
+                       {0: (rng.randint(1, 5), rng.random() < 0.5), 1: (rng.randint(1, 5), rng.random() < 0.5)}))
     # random larger tables
     for _ in range(ntables // 4):
         n_inf = 3
@@ -240,17 +249,18 @@ def check(tier: str, seed: int):
     work = []
     stream_cache = {}
     for pre, post, inf in tables:
-        key = (len(inf), bool(pre), bool(post))
+        key = (len(inf), len(pre), len(post))
         if key not in stream_cache:
-            stream_cache[key] = wf_streams(maxlen, len(inf), bool(pre), bool(post))
+            stream_cache[key] = wf_streams(maxlen if len(pre) + len(post) <= 2 else maxlen - 1, len(inf), len(pre),
+                                           len(post))
         streams = stream_cache[key]
         if len(streams) > 700:
             streams = rng.sample(streams, 700)
         # malformed streams: operator first, trailing operator, empty, two operands
         junk = [[], ["i0"], ["a1", "i0"], ["a1", "a1"], ["a1", "i0", "i0", "a1"]]
-        if post:
+        if 0 in post:
             junk += [["o0"], ["a1", "o0", "a1"], ["a1", "i0", "o0"]]
-        if pre:
+        if 0 in pre:
             junk += [["e0"], ["a1", "e0"], ["e0", "i0", "a1"]]
         work.append([((pre, post, inf), streams, True), ((pre, post, inf), junk, False)])
     total = 0
